@@ -95,7 +95,7 @@ func TestVerifC19NumaBoot(t *testing.T) {
 	}
 	node := &corev1.Node{ObjectMeta: metav1.ObjectMeta{Name: c19NodeName}}
 	suit := newPluginTestSuit(t, nil, []*corev1.Node{node})
-	n := h.N(30, 400)
+	n := h.N(30, 200)
 	for idx := 0; idx < n; idx++ {
 		r := h.Begin(idx)
 		if r == nil {
